@@ -501,3 +501,38 @@ package parsley
 //@   requires GhostFloorPos < ctx.reader.Pos(0)
 //@   ensures  [value-or-error;C04] v == nil || err == nil
 //@   assigns  ctx.err, ctx.callCount, fields[Node](), fields[File](), elems[[]Node](), maps[ResultCache](), maps[map[Pos]*Result](), maps[map[string]*regexp.Regexp](), GhostCurtailed, GhostMaxFail, GhostCalls, GhostFloorPos, GhostFloorLrc, GhostLo, GhostHi
+
+//@ -- ------------------------------------------------------------ the remaining Context methods
+//@ func (c *Context) RegisterKeywords(keywords ...string)
+//@   props C14
+//@   requires c != nil && c.keywords != nil
+//@   ensures  forall k int :: 0 <= k && k < len(keywords) ==> dom(c.keywords, keywords[k])
+//@   assigns  mapcells(c.keywords)
+//@ loop 1 (k rangeindex)
+//@   invariant 0 <= k && k <= len(keywords) && forall j int :: 0 <= j && j < k ==> dom(c.keywords, keywords[j])
+//@ func (c *Context) IsKeyword(word string) (r bool)
+//@   props C14
+//@   requires c != nil
+//@   ensures  r == dom(c.keywords, word)
+//@   assigns  nothing
+//@ func (c *Context) EnableTransformation()
+//@   props C14
+//@   requires c != nil
+//@   ensures  c.transformationEnabled
+//@   assigns  c.transformationEnabled
+//@ func (c *Context) EnableStaticCheck()
+//@   props C14
+//@   requires c != nil
+//@   ensures  c.staticCheckEnabled
+//@   assigns  c.staticCheckEnabled
+//@ func (c *Context) SetUserContext(userCtx interface{})
+//@   props C14
+//@   requires c != nil
+//@   ensures  c.userCtx == userCtx
+//@   assigns  c.userCtx
+//@ functype parsley.NodeTransformFunc(userCtx interface{}, node Node) (r Node, err Error)
+//@   include parsley.NodeTransformer.TransformNode
+//@ func (f NodeTransformFunc) TransformNode(userCtx interface{}, node Node) (r Node, err Error)
+//@   props C13
+//@   requires f != nil
+//@   include parsley.NodeTransformer.TransformNode
